@@ -36,6 +36,7 @@ SHRINK = {"list": ["plan"], "text": ["docs.0", "docs.1"]}
 NO_SHRINK = True  # schedules are reported as found (plans are already minimal: one switch in the sweeps)
 
 PAIRS = [
+    ["```rust x\nfn a() {}\n```\n\n![alt *text* `c` here](u) ![x](y)\n\n~~~py\nb\n~~~\n", "```c\nint b;\n```\n\n" + ">" * 19 + " deep *text* ![i](s)\n\n~~~ js z\nq\n~~~\n"],
     ["z [x `]` y](/u) [p *q* `r]`](/v) ![s [t] `]`](/w)\n", "[abcdefgh*i](/m) [a][b] ![c `d` e](f) [gh `i` jk lm](/n)\n"],
     ["# T\n\n> *a* [b](c)\n\n- x\n- y `z`\n", "1. q **w**\n\n```\nf\n```\n\nfoo\n***\nbar\n# H\nbaz\n> q\n"],
     ["[x `]` y](/u) *a _b_* ![i *j*](s)\n\n| a | b |\n|---|---|\n| 1 | 2 |\n", "- a\n  - b [l][r]\n\n[r]: /u 'T'\n\n<div>\nh\n</div>\n\n~~s~~ \"q\" -- (c)\n"],
@@ -124,7 +125,7 @@ def enumerate_cases(tier: str, shard: int, nshards: int):
     # nested re-entrancy sweeps
     for pi, docs in enumerate(PAIRS):
         cfg = CFGS[pi % len(CFGS)]
-        for site in ("inline", "block", "core", "render"):
+        for site in ("inline", "block", "core", "render", "highlight"):
             n = count_invocations(cfg, docs[0], site)
             cap = b["nested_cap"]
             ks = list(range(1, n + 1))
@@ -154,7 +155,9 @@ def _case(draw, nthreads: int):
             docs.append(gen.block_doc_d(d, tabs=False, maxdepth=2, perturbed=False))
     cfg = d.pick(CFGS)
     if d.chance(0.35):
-        site = d.pick(["inline", "block", "core", "render"])
+        site = d.pick(["inline", "block", "core", "render", "highlight"])
+        if site == "highlight":
+            docs = [dd + d.pick(["\n```py\nx\n```\n", "\n~~~ c z\ny\n~~~\n"]) for dd in docs]
         return {"kind": "nested", "docs": docs[:2], "cfg": cfg, "state": d.pick(["fresh", "warm", "reconfigured"]), "site": site, "k": d.i(1, 12) if d.chance(0.6) else d.i(1, 80), "origin": "generated"}
     state = d.pick(STATES)
     plan = []
@@ -210,6 +213,11 @@ def install(md, site: str, hook):
         def rule(state):
             hook()
         md.core.ruler.after("block", "verif_reenter", rule)
+    elif site == "highlight":
+        def hl(content, lang, attrs):
+            hook()
+            return ""
+        md.options["highlight"] = hl
     else:
         def text_rule(self, tokens, idx, options, env):
             hook()
